@@ -44,10 +44,13 @@ Example symlink_last_component :
      (sl_fs, SErrMkdir S_EEXIST); (sl_fs, SErrMkdir S_ENOTDIR); (sl_fs, SErrMkdir S_EEXIST)].
 Proof. vm_compute. reflexivity. Qed.
 
+Definition sl_link_name : bytes := Bs "link".
+Definition sl_link_target : bytes := Bs "../out".
+
 (* CONTAINMENT IS REFUTED when the directory contains a link that leads outside *)
 Theorem symlink_containment_refuted :
   exists fs dir files fs' p,
-    sget fs (resolve [] dir ++ [Bs "link"]) = Some (SLink (Bs "../out")) /\
+    sget fs (resolve [] dir ++ [sl_link_name]) = Some (SLink sl_link_target) /\
     s_write [] fs dir files = (fs', SOk) /\
     sget fs p = None /\ sget fs' p <> None /\ ~ within (resolve [] dir) p.
 Proof.
@@ -130,5 +133,5 @@ Proof.
   destruct (s_write_one cwd fs dir nd) as [fs1 r1] eqn:E1.
   pose proof (s_write_one_preserves _ _ _ _ _ _ E1) as H1.
   destruct r1; try (inversion H; subst; exact H1).
-  eapply spreserves_trans; [exact H1|]. eapply IH; eauto.
+  eapply spreserves_trans; [exact H1|]. exact (IH _ _ _ H).
 Qed.
